@@ -3,7 +3,7 @@
     that what the writer emits is recovered by them. *)
 From Coq Require Import ZArith List Lia Bool.
 Import ListNotations.
-Open Scope Z_scope.
+Local Open Scope Z_scope.
 
 (** Unsigned LEB128 (counts, sizes, indices). *)
 Fixpoint uleb_decode (bs : list Z) : option (Z * list Z) :=
